@@ -408,6 +408,10 @@ func universe() []Val {
 		xs := []interface{}{strT{secStr[v]}, fmtT{secPlain[v]}, goT{secStr[v]}}
 		return []interface{}{reflect.ValueOf(xs).Index(0), reflect.ValueOf(xs).Index(1), reflect.ValueOf(xs).Index(2)}
 	}))
+	add(Val{Name: "Stringer panicking with a runtime error that embeds the secret index", Mk: func(v int) interface{} { return idxStrT(secInt[v]*secInt[v]%9000 + 100) }, Fmt: true, PanicMid: true})
+	add(Val{Name: "[]Stringer/Formatter panicking with index / slice-bounds runtime errors", Mk: func(v int) interface{} {
+		return []interface{}{idxStrT(4711 + 3375*v), sliceFmtT{4711 + 3375*v}, "tail"}
+	}, Fmt: true, PanicMid: true})
 	add(m("GoStringer", true, func(v int) interface{} { return goT{secStrLF[v]} }))
 	add(m("Formatter", true, func(v int) interface{} { return fmtT{secStrLF[v]} }))
 	add(m("Formatter via io.WriteString", true, func(v int) interface{} { return fmtWST{secStrLF[v]} }))
@@ -584,6 +588,17 @@ func fmtUniverse() []Val {
 }
 
 func nan() float64 { return math.NaN() }
+
+// idxStrT: the enum-with-name-table idiom; an out-of-range value panics with a runtime error whose text embeds the value
+type idxStrT int
+
+var idxNames = []string{"zero", "one", "two"}
+
+func (i idxStrT) String() string { return idxNames[i] }
+
+type sliceFmtT struct{ n int }
+
+func (s sliceFmtT) Format(st fmt.State, _ rune) { fmt.Fprint(st, "x", idxNames[0][:s.n]) }
 
 // dblSafeT is safe twice over: it has the SafeValue marker method AND the checks that use it register its type
 // (dblSafeRegister). A value must not become "more" than safe by being classified twice.
